@@ -4,12 +4,12 @@ package main
 // (E-must), who-may-call / who-may-touch (E-who), value tracing.
 
 import (
-	"strings"
 	"fmt"
 	"go/constant"
 	"go/token"
 	"go/types"
 	"sort"
+	"strings"
 
 	"golang.org/x/tools/go/ssa"
 )
